@@ -15,3 +15,16 @@ package quickfix
 //@   loop 1 invariant @digits alldigits(d, $i+1)
 //@   loop 1 invariant @acc n == wdec(d, $i+1)
 //@   loop 1 decreases len(d) - $i
+
+//@ spec isint(d []byte) bool = len(d) > 0 && (d[0] == 45 ? (len(d) > 1 && alldigits(d[1:], len(d)-1)) : alldigits(d, len(d)))
+//@ spec intval(d []byte) mathint = d[0] == 45 ? wrap64(0 - wdec(d[1:], len(d)-1)) : wdec(d, len(d))
+
+//@ func atoi [C09,C14]
+//@   ensures @accept (result1 == nil) <==> isint(d)
+//@   ensures @value result1 == nil ==> result0 == intval(d)
+
+//@ func (f *FIXInt) Read [C09,C14]
+//@   ensures @accept (result == nil) <==> isint(bytes)
+//@   ensures @value result == nil ==> *f == intval(bytes)
+//@   ensures @keep result != nil ==> *f == old(*f)
+//@   modifies f
